@@ -30,6 +30,13 @@ CHECKS = {
                     'parseMessage; foreign encodings (both byte orders, permuted fields, symbolic unknown field code) from '
                     'the reference encoder must parse to the same message; the size limit is decided on a symbolic limit.',
             'ref': 'DESIGN.md 2/C03', 'note': NOTE, 'technique': SYM + ' against an independent reference message codec'},
+    'C04': {'text': 'The real dataReceived runs on a stream-view proxy whose message length fields (all values < 2^32, both '
+                    'byte orders) and read sizes (unbounded) are solver variables: exactly the complete messages are handed '
+                    'over once, in order, with the exact byte ranges; an inductive two-reads-equal-one-read lemma from an '
+                    'arbitrary consistent state lifts the bound on the number of reads; real message bytes and the '
+                    'handshake/binary boundary are explored with symbolic serials/flags.',
+            'ref': 'DESIGN.md 2/C04', 'note': NOTE + ' Stream-view proxy (vf/streamview.py) stands in for bytes/struct in the '
+                    'frame/step families.', 'technique': SYM + '; stream modelled by a symbolic-bounds proxy; one inductive step lemma'},
 }
 _TODO = 'check not built yet in this revision (planned, see DESIGN.md section 2)'
 NOT_APPLICABLE = {('C%02d' % i): _TODO for i in range(1, 21)}
